@@ -167,6 +167,21 @@ let check (b : block) : verdict list =
   match find b "skipped" with
   | Some [k] -> bump_by "c13_lines_not_run_resource_guard" (int_of_string k); [Ok]
   | _ ->
+  if find b "k6" <> None then begin
+    (* finding K6, bounded variant: wall-clock of `count a 1..K` (rejected: boundary 5) for growing K *)
+    let rows = List.filter_map (function [k; ns; a] -> Some (int_of_string k, float_of_string ns, unhex a) | _ -> None) (find_all b "K6") in
+    match rows with
+    | (k0, t0, _) :: _ when List.length rows >= 2 ->
+      let (k1, t1, _) = List.nth rows (List.length rows - 1) in
+      let all_rejected = List.for_all (fun (_, _, a) -> err_code a = "E3") rows in
+      bump "c13_k6_probes";
+      if all_rejected && t1 > 20.0 *. t0 && t1 > 1.0e6 then
+        [Viol ("get_numbers:range-expansion",
+               Printf.sprintf "`count a 1..%d` on 5 features is rejected (boundary -5..5) after %.0f us, `count a 1..%d` after %.0f us: the range is materialised before the boundary check, cost grows with the range, not with n"
+                 k1 (t1 /. 1000.0) k0 (t0 /. 1000.0))]
+      else [Ok]
+    | _ -> [Ok]
+  end else
   match impl b "panic" with
   | Some msg -> [Viol ("load:panic", "loading panicked: " ^ String.concat " " msg)]
   | None ->
@@ -180,7 +195,11 @@ let check (b : block) : verdict list =
     let add v = (match v with Viol _ -> incr nviol | _ -> ()); if List.length !out < 40 then out := v :: !out in
     if find b "cursor_poisoned" <> None then
       add (Viol ("stream:panic", "the process-global enumeration cursor lock is poisoned by an earlier panic inside enumerate: every later enum request panics"));
-    let st = ref { Model.dd = Model.build c nn; sc = Model.fresh_scratch c; cur = []; cache = None } in
+    (* a cursor left behind by ANOTHER model in the same process (finding K2) *)
+    let foreign = match find b "foreign_cursor" with Some (k :: _) -> Some (int_of_string k) | _ -> None in
+    let cur0 = match foreign with Some k -> [([], Conv.z_of_int k)] | None -> [] in
+    let panic_sig = if foreign <> None then "enumerate:cursor-shared-across-models" else "stream:panic" in
+    let st = ref { Model.dd = Model.build c nn; sc = Model.fresh_scratch c; cur = cur0; cache = None } in
     let es = Array.of_list (entries b) in
     let seen : (string, string * string) Hashtbl.t = Hashtbl.create 64 in
     (* cursor oracle: the answers of `enum l 1` probes must walk one fixed cycle *)
@@ -218,7 +237,7 @@ let check (b : block) : verdict list =
         if not fits then add (Diff ("sample-choices", Printf.sprintf "[%s] the recorded choice stream does not fit the model's traversal" show));
         (* ---- oracle *)
         (match e.ans with
-         | None -> add (Viol ("stream:panic", Printf.sprintf "line [%s] panicked: %s" show e.pmsg))
+         | None -> add (Viol (panic_sig, Printf.sprintf "line [%s] panicked: %s" show e.pmsg))
          | Some a ->
            if e.flag <> "b" then begin
              bump "c13_lines"; bump ("c13_answer_" ^ err_code a);
